@@ -11,6 +11,7 @@ package main
 
 import (
 	"fmt"
+	"go/constant"
 	"go/token"
 	"go/types"
 	"sort"
@@ -610,4 +611,241 @@ func isFoldType(tab []axisEntry, label string, t *QType) bool {
 		}
 	}
 	return false
+}
+
+// ---- the per-parent rewrite of positional predicates (C03-MERGE) ----
+
+type filterBuild struct {
+	Step      *QType
+	Rewritten bool   // the step was detached: result is a two-query object whose first query is the step's former input
+	Why       string // when the outcome is neither the rewrite nor the plain filter
+	Plain     bool   // plain filter over the untouched step
+	Outcome   buildOutcome
+}
+
+// filterBuilds follows the predicate builder for a positional predicate
+// (constant 1) on a step of each given type whose input is some non-context
+// query: the node dispatcher is replaced by "returns that step object (and
+// records it as the builder's first input, as the real dispatcher does)".
+func (w *World) filterBuilds(stepTypes []*QType) ([]filterBuild, *builderRoles, error) {
+	br, err := w.roles()
+	if err != nil {
+		return nil, nil, err
+	}
+	if br.FilterB == nil {
+		return nil, br, fmt.Errorf("anchor: predicate builder (method taking a node with two node fields) not found")
+	}
+	fnode, _ := derefNamed(br.FilterB.Params[1].Type())
+	fst := fnode.Underlying().(*types.Struct)
+	var nodeIdx []int
+	for i := 0; i < fst.NumFields(); i++ {
+		if types.Identical(fst.Field(i).Type(), br.NodeT) {
+			nodeIdx = append(nodeIdx, i)
+		}
+	}
+	// the builder's query-typed scratch field (first input)
+	bst := br.BuilderT.Underlying().(*types.Struct)
+	firstIdx := -1
+	for i := 0; i < bst.NumFields(); i++ {
+		if w.isQueryType(bst.Field(i).Type()) {
+			firstIdx = i
+		}
+	}
+	// a constant-query type: one field of empty interface type, no query fields
+	var constT, parentT *QType
+	for _, qt := range w.census.Types {
+		nq := 0
+		for _, f := range qt.Fields {
+			if f.IsQuery {
+				nq++
+			}
+		}
+		if nq == 0 && len(qt.Fields) == 1 && isEmptyIface(qt.Fields[0].Var.Type()) {
+			constT = qt
+		}
+	}
+	if constT == nil || firstIdx < 0 || len(nodeIdx) != 2 {
+		return nil, br, fmt.Errorf("anchor: constant query type / builder first-input field not found")
+	}
+	var out []filterBuild
+	for _, T := range stepTypes {
+		// some other step type serves as the (non-context) parent path
+		parentT = nil
+		for _, o := range stepTypes {
+			if o != T {
+				parentT = o
+			}
+		}
+		if parentT == nil {
+			continue
+		}
+		inField := -1
+		tst := T.Named.Underlying().(*types.Struct)
+		for i := 0; i < tst.NumFields(); i++ {
+			if w.isQueryType(tst.Field(i).Type()) {
+				inField = i
+			}
+		}
+		if inField < 0 {
+			continue
+		}
+		st := w.initState()
+		P := st.newObj(parentT.Named, nil)
+		P.Extern = true
+		pv := AVal{Kind: avPtr, Obj: P, Field: -1, Dyn: types.NewPointer(parentT.Named), Tag: "parent-path"}
+		O := st.newObj(T.Named, nil)
+		O.Extern = true
+		O.Fields[inField] = pv
+		ov := AVal{Kind: avPtr, Obj: O, Field: -1, Dyn: types.NewPointer(T.Named), Tag: "step"}
+		C := st.newObj(constT.Named, nil)
+		C.Fields[0] = AVal{Kind: avConst, C: constant.MakeFloat64(1), Dyn: types.Typ[types.Float64]}
+		cv := AVal{Kind: avPtr, Obj: C, Field: -1, Dyn: types.NewPointer(constT.Named), Tag: "cond"}
+		root := st.newObj(fnode, nil)
+		// the filtered expression is a step: a node of the axis-node type (kind constant as its constructor sets it)
+		inNode := st.newObj(br.AxisNode, nil)
+		inNode.Extern = true
+		if k, ok := w.nodeKindConst(br.AxisNode); ok {
+			ast := br.AxisNode.Underlying().(*types.Struct)
+			for i := 0; i < ast.NumFields(); i++ {
+				if ast.Field(i).Embedded() {
+					inNode.Fields[i] = aInt(k)
+				}
+			}
+		}
+		root.Fields[nodeIdx[0]] = AVal{Kind: avPtr, Obj: inNode, Field: -1, Dyn: types.NewPointer(br.AxisNode), Tag: "in"}
+		root.Fields[nodeIdx[1]] = AVal{Kind: avUnknown, Tag: "cond"}
+		hooks := w.builderHooks(br)
+		base := hooks.Call
+		var bObj *AObj
+		hooks.Call = func(ai *AInterp, s2 *AState, site ssa.CallInstruction, callee *ssa.Function, args []AVal) (bool, AVal) {
+			if callee == br.Dispatch && len(args) >= 2 {
+				// *props = None, as the dispatcher does first
+				for _, a := range args[2:] {
+					if a.Kind == avPtr && a.Field < 0 {
+						if bt, ok := s2.obj(a.Obj).Type.Underlying().(*types.Basic); ok && bt.Info()&types.IsInteger != 0 {
+							ai.store(s2, a, aInt(0))
+						}
+					}
+				}
+				switch args[1].Tag {
+				case "in":
+					if bObj != nil {
+						s2.obj(bObj).Fields[firstIdx] = ov
+					}
+					return true, AVal{Kind: avTuple, Tup: []AVal{ov, {Kind: avNil}}}
+				case "cond":
+					return true, AVal{Kind: avTuple, Tup: []AVal{cv, {Kind: avNil}}}
+				}
+			}
+			return base(ai, s2, site, callee, args)
+		}
+		ai := w.newInterp(hooks)
+		ai.MaxVisits = 4
+		args := w.builderArgs(st, br, br.FilterB, root)
+		bObj = args[0].Obj
+		fb := filterBuild{Step: T}
+		for _, o := range ai.Exec(br.FilterB, args, nil, st) {
+			if debugFilterBuilds {
+				var ds []string
+				for _, ev := range o.St.Trace {
+					if ev.Kind == "branch" {
+						ds = append(ds, fmt.Sprintf("%s=%v", w.instrPos(ev.Site), ev.Taken))
+					}
+				}
+				fmt.Printf("  %s: ret=%s cut=%v panic=%v branches=%v\n", T.Name(), o.Ret.String(), o.Cut, o.Panicked, ds)
+			}
+			bo := classify(o)
+			fb.Outcome = bo
+			if !bo.Accepted || bo.Result.Kind != avPtr {
+				fb.Why = "the builder does not return a query (" + o.Ret.String() + ")"
+				continue
+			}
+			res := o.St.obj(bo.Result.Obj)
+			rn, _ := res.Type.(*types.Named)
+			rqt := w.census.ByType[rn]
+			stepNow := o.St.obj(O)
+			stepIn := stepNow.Fields[inField]
+			var qf []AVal
+			if rqt != nil {
+				rst := rn.Underlying().(*types.Struct)
+				for i := 0; i < rst.NumFields(); i++ {
+					if w.isQueryType(rst.Field(i).Type()) {
+						qf = append(qf, res.Fields[i])
+					}
+				}
+			}
+			isCtx := func(v AVal) bool {
+				if v.Kind != avPtr {
+					return false
+				}
+				tn := typeName(o.St.obj(v.Obj).Type)
+				q := w.census.ByName[tn]
+				if q == nil {
+					return false
+				}
+				for _, f := range q.Fields {
+					if f.IsQuery {
+						return false
+					}
+				}
+				return v.Obj.ID != P.ID && v.Obj.ID != C.ID
+			}
+			switch {
+			case len(qf) == 2 && qf[0].Kind == avPtr && qf[0].Obj.ID == P.ID && isCtx(stepIn):
+				// second query: a filter over the step
+				fb.Rewritten = true
+				if qf[1].Kind != avPtr {
+					fb.Rewritten, fb.Why = false, "the merged step's second query is not built"
+				} else {
+					child := o.St.obj(qf[1].Obj)
+					over := false
+					for _, v := range child.Fields {
+						if v.Kind == avPtr && v.Obj.ID == O.ID {
+							over = true
+						}
+					}
+					if !over {
+						fb.Rewritten, fb.Why = false, "the per-parent step does not filter the detached step"
+					}
+				}
+			case stepIn.Kind == avPtr && stepIn.Obj.ID == P.ID:
+				fb.Plain = true
+			default:
+				fb.Why = fmt.Sprintf("result %s, the step's input is now %s", w.describeResult(bo), stepIn.String())
+			}
+		}
+		out = append(out, fb)
+	}
+	return out, br, nil
+}
+
+var debugFilterBuilds = false
+
+// nodeKindConst: the kind constant the constructors store in the embedded
+// kind field of node type nt.
+func (w *World) nodeKindConst(nt *types.Named) (int64, bool) {
+	var out int64
+	found := false
+	for _, fn := range w.AllFuncs {
+		eachInstr(fn, false, func(_ *ssa.Function, in ssa.Instruction) {
+			st, ok := in.(*ssa.Store)
+			if !ok {
+				return
+			}
+			k, ok := constInt(st.Val)
+			if !ok {
+				return
+			}
+			fa, ok := st.Addr.(*ssa.FieldAddr)
+			if !ok {
+				return
+			}
+			if a, ok := fa.X.(*ssa.Alloc); ok {
+				if nm, ok := derefNamed(a.Type()); ok && nm == nt && fieldOfAddr(fa).Embedded() {
+					out, found = k, true
+				}
+			}
+		})
+	}
+	return out, found
 }
